@@ -42,7 +42,8 @@ Arg(r) ==
            pos == IF form = "from" THEN 0 ELSE IF form = "to" THEN PD ELSE Pick(Positions, r3)
            m == r3 % 7
        IN [k |-> "kf", pos |-> pos, form |-> form,
-           d |-> << IF m # 1 THEN <<Pick(ValX, r2 \div 4)>> ELSE <<>>,
+           \* (m = 6: an empty field list `{ }` - a keyframe that defines nothing)
+           d |-> << IF m # 1 /\ m # 6 THEN <<Pick(ValX, r2 \div 4)>> ELSE <<>>,
                     IF m = 2 \/ m = 5 THEN <<Pick(ValX, r3 \div 7) + 1>> ELSE <<>>,
                     IF m = 1 \/ m = 3 \/ m = 5 THEN <<Pick(ValN, r2 \div 9)>> ELSE <<>>,
                     IF m = 4 THEN <<Pick(ValN, r3 \div 3)>> ELSE <<>> >>]
